@@ -112,6 +112,7 @@ type Node struct {
 	tip          H
 	tipTS        uint64
 	earlierLife  bool // see Receive
+	foreignEarly bool // an unrequested transaction was handed over while no request was outstanding (E2 foreign_tx)
 	ledgerAhead  bool // the ledger got the block of the height under consensus from elsewhere; Reset not called yet
 	pendingReset bool
 	resetHeld    bool // a slow application: the pending Reset is postponed until nothing else is deliverable
@@ -216,13 +217,13 @@ func (n *Node) build() {
 		dbft.WithNewRecoveryRequest[H](func(ts uint64) dbft.RecoveryRequest { return &recReq{ts} }),
 		dbft.WithNewRecoveryMessage[H](func() dbft.RecoveryMessage[H] { return &recMsg{} }),
 		dbft.WithVerifyPrepareRequest[H](func(p dbft.ConsensusPayload[H]) error {
-			if sc.RejectPayload != nil && sc.RejectPayload(n.id, p.(*Payload)) {
+			if n.rejects(p.(*Payload)) {
 				return errors.New("rejected by policy")
 			}
 			return nil
 		}),
 		dbft.WithVerifyPrepareResponse[H](func(p dbft.ConsensusPayload[H]) error {
-			if sc.RejectPayload != nil && sc.RejectPayload(n.id, p.(*Payload)) {
+			if n.rejects(p.(*Payload)) {
 				return errors.New("rejected by policy")
 			}
 			return nil
@@ -314,7 +315,7 @@ func (n *Node) cbVerifyPreBlock(b dbft.PreBlock[H]) bool {
 
 func (n *Node) cbVerifyCommit(p dbft.ConsensusPayload[H]) error {
 	pp := p.(*Payload)
-	if n.sc().RejectPayload != nil && n.sc().RejectPayload(n.id, pp) {
+	if n.rejects(pp) {
 		return errors.New("rejected by policy")
 	}
 	c := n.ctx()
@@ -331,7 +332,7 @@ func (n *Node) cbVerifyCommit(p dbft.ConsensusPayload[H]) error {
 
 func (n *Node) cbVerifyPreCommit(p dbft.ConsensusPayload[H]) error {
 	pp := p.(*Payload)
-	if n.sc().RejectPayload != nil && n.sc().RejectPayload(n.id, pp) {
+	if n.rejects(pp) {
 		return errors.New("rejected by policy")
 	}
 	c := n.ctx()
@@ -521,6 +522,14 @@ func (n *Node) Receive(p *Payload) {
 		// the certificate, quiescence, timer, hygiene and phase-callback monitors stay on
 		n.earlierLife = true
 	}
+	if rm, ok := p.body.(*recMsg); ok && n.d != nil && n.isValidator() {
+		// ... the same when they come back inside somebody's recovery message
+		for _, e := range rm.payloads {
+			if int(e.idx) == n.ctx().MyIndex && e.srcNode != n.id {
+				n.earlierLife = true
+			}
+		}
+	}
 	n.api("OnReceive", p, func() { n.d.OnReceive(p) })
 	n.flush()
 }
@@ -534,6 +543,9 @@ func (n *Node) Timeout(h uint32, v byte) {
 }
 
 func (n *Node) SupplyTx(h H) {
+	if h == 0x7777 && (n.m == nil || !n.m.reqActive) {
+		n.foreignEarly = true
+	}
 	// notify-first applications call OnTransaction before the transaction becomes visible to GetTx
 	late := n.sc().E2 != nil && n.sc().E2.NotifyFirst && !n.known[h]
 	if late {
@@ -574,4 +586,9 @@ func (n *Node) flush() {
 		n.w.send(n, p)
 	}
 	n.outbox = n.outbox[:0]
+}
+
+// rejects: the application's payload verifier refuses pp (scenario policy, or a payload marked as carrying a bad witness).
+func (n *Node) rejects(pp *Payload) bool {
+	return pp.badWitness || (n.sc().RejectPayload != nil && n.sc().RejectPayload(n.id, pp))
 }
